@@ -3,7 +3,7 @@
    against Process.tla.
    Input (IOEnv.TRACE): one JSON object
      meta     configuration of the run (n workers, hc, client_stats)
-     threads  per-thread hook logs, in each thread's own order:  main, sig, w1..wN
+     threads  per-thread hook logs, in each thread's own order:  main, sig, rep (statistics reporter), w1..wN
               (events were written by the thread itself with a per-thread sequence number; nothing
                orders events of different threads, so this specification keeps ONE CURSOR PER THREAD
                and TLC searches for an interleaving that Process.tla allows)
@@ -20,13 +20,16 @@ VARIABLES mpc, mi, lock, poisoned, wpc, hcOwner, keep, rpc, sockq, drained, exit
                      \* counter incremented while holding the mutex, so their order is known)
 
 P == INSTANCE Process WITH N <- TN, Hc <- Run.meta.hc, HcReusePort <- TRUE, ClientStats <- Run.meta.client_stats,
-                           DrainBounded <- TRUE, MaxDrain <- 2, Q <- 2, AllowSignal <- TRUE
+                           DrainBounded <- TRUE, MaxDrain <- 2, Q <- 2, AllowSignal <- TRUE, ReporterFragile <- FALSE
 
 pvars == <<mpc, mi, lock, poisoned, wpc, hcOwner, keep, rpc, sockq, drained, exit>>
-\* thread ids: 0 = main, 1..TN = workers, TN + 1 = the signal-handling thread
-Threads == 0..(TN + 1)
+\* thread ids: 0 = main, 1..TN = workers, TN + 1 = the statistics reporter, TN + 2 = the signal-handling thread
+\* (the reporter comes before the signal thread: its "the flag was still set" events are consumed before the
+\*  signal is, which is always at least as permissive as the other order)
+Threads == 0..(TN + 2)
 WName(w) == "w" \o ToString(w)
-Log(t) == IF t = 0 THEN Run.threads.main ELSE IF t = TN + 1 THEN Run.threads.sig ELSE Run.threads[WName(t)]
+Log(t) == IF t = 0 THEN Run.threads.main ELSE IF t = TN + 2 THEN Run.threads.sig
+          ELSE IF t = TN + 1 THEN Run.threads.rep ELSE Run.threads[WName(t)]
 HasNext(t) == cur[t] <= Len(Log(t))
 Ev(t) == Log(t)[cur[t]]
 Adv(t) == cur' = [cur EXCEPT ![t] = @ + 1]
@@ -42,9 +45,8 @@ MainEv(e) ==
       [] e.ev = "m_join_begin" -> ~poisoned /\ P!m_postlocks
       [] e.ev = "m_joined" -> IF e.i < TN
                               THEN mpc = "join" /\ mi = e.i + 1 /\ (e.ok <=> wpc[mi] = "exited") /\ P!m_join
-                              ELSE Skip                                  \* the reporter thread's join
-      [] e.ev = "m_exit" -> mpc = "join" /\ mi = TN + 1 /\ rpc' = "exited" /\ mpc' = "done" /\ exit' = "0"
-                            /\ UNCHANGED <<mi, lock, poisoned, wpc, hcOwner, keep, sockq, drained>>
+                              ELSE mpc = "join" /\ mi = TN + 1 /\ e.ok /\ rpc = "exited" /\ Skip   \* the reporter thread's join
+      [] e.ev = "m_exit" -> mpc = "join" /\ mi = TN + 1 /\ P!m_join
       [] e.ev = "panic" -> poisoned /\ lock = 0 /\ mpc \in {"spawn", "postlocks"} /\ mpc' = "panicked" /\ exit' = "101"
                            /\ UNCHANGED <<mi, lock, poisoned, wpc, hcOwner, keep, rpc, sockq, drained>>
       [] OTHER -> FALSE
@@ -64,18 +66,34 @@ WorkerEv(w, e) ==
                /\ UNCHANGED <<mpc, mi, hcOwner, keep, rpc, sockq, drained, exit>>)
       [] OTHER -> FALSE
 
+\* the reporter's loop: r_pass = the flag was set at the loop condition (a new pass begins: the previous pass's work and
+\* sleep are implied); r_received / r_reported = inside the pass; r_exit = the flag was clear at the loop condition.
+\* A "panic" event of this thread is no step of the specification.
+RepEv(e) ==
+    CASE e.ev = "r_pass" -> rpc \in {"check", "pass"} /\ keep /\ rpc' = "pass"      \* from "pass": r_work . r_wake . r_check
+                            /\ UNCHANGED <<mpc, mi, lock, poisoned, wpc, hcOwner, keep, sockq, drained, exit>>
+      [] e.ev \in {"r_received", "r_reported"} -> rpc = "pass" /\ Skip
+      [] e.ev = "r_exit" -> rpc \in {"check", "pass"} /\ ~keep /\ rpc' = "exited"
+                            /\ UNCHANGED <<mpc, mi, lock, poisoned, wpc, hcOwner, keep, sockq, drained, exit>>
+      [] OTHER -> FALSE
+
 SigEv(e) == e.ev = "sig" /\ keep' = FALSE /\ UNCHANGED <<mpc, mi, lock, poisoned, wpc, hcOwner, rpc, sockq, drained, exit>>
 
 Step(t) == /\ HasNext(t) /\ Adv(t)
            /\ nlocks' = (IF t \in 1..TN /\ Ev(t).ev = "w_lock" THEN nlocks + 1 ELSE nlocks)
            /\ IF t = 0 THEN MainEv(Ev(t))
-              ELSE IF t = TN + 1 THEN SigEv(Ev(t))
+              ELSE IF t = TN + 2 THEN SigEv(Ev(t))
+              ELSE IF t = TN + 1 THEN RepEv(Ev(t))
               ELSE WorkerEv(t, Ev(t))
 
 \* events that neither need nor change the mutex / poison flag commute with everything else:
 \* they are consumed first, lowest thread first (partial-order reduction of the interleaving search)
-Independent(t) == HasNext(t) /\ Ev(t).ev \in {"m_start", "w_start", "w_exit", "sig", "m_joined", "m_exit", "m_spawned_all"}
-IndepEnabled(t) == Independent(t) /\ ENABLED Step(t)
+Independent(t) == HasNext(t) /\ Ev(t).ev \in {"m_start", "w_start", "w_exit", "sig", "m_joined", "m_exit", "m_spawned_all",
+                                                "r_pass", "r_received", "r_reported", "r_exit"}
+\* ... except that the signal must not be consumed while the reporter still has a "flag was set" event to come
+\* (r_pass needs keep = TRUE): then the signal is an ordinary, branching step
+RepNeedsFlag == \E i \in cur[TN + 1]..Len(Log(TN + 1)) : Log(TN + 1)[i].ev = "r_pass"
+IndepEnabled(t) == Independent(t) /\ ENABLED Step(t) /\ ~(t = TN + 2 /\ RepNeedsFlag)
 TNext == LET S == {t \in Threads : IndepEnabled(t)} IN
          IF S # {} THEN Step(CHOOSE t \in S : \A u \in S : t <= u)
          ELSE \E t \in Threads : Step(t)
